@@ -11,7 +11,7 @@ dotted prefix of it; its checker is one of the covering hooks'; everything else 
 the last uninstall no finder of the hook remains on sys.meta_path."""
 
 from .. import hooksim
-from ..core import Stats, digest, rng, violation
+from ..core import H, Stats, digest, rng, violation
 from ..hooksim import MODULES
 from .c18 import gen_forest, _sig
 
@@ -80,12 +80,24 @@ def gen(seed, tier="quick"):
             ops.append({"op": "uninstall", "id": hid_, "with": w})
         ops.append({"op": "import", "module": r.choice(MODULES)})
     return {"engine": ENGINE, "property": PID, "seed": seed, "forest": forest,
-            "runs": [{"ops": ops, "check_finders": True}], "bytecode": False}
+            "runs": [{"ops": ops, "check_finders": True}], "bytecode": False,
+            "real_process": H(seed, "real") % (60 if tier == "thorough" else 600) == 0}
 
 
 def execute(scn):
     stats = Stats()
-    probs = hooksim.run_history(scn, stats)
+    probs, obs_soft = hooksim.run_history(scn, stats)
+    if scn.get("real_process"):
+        # cross-validation of the simulated process boundary: the same history, every run in a fresh interpreter
+        st2 = Stats()
+        probs_real, obs_real = hooksim.run_history(scn, st2, real_process=True)
+        stats.inc("histories_cross_validated_with_real_processes")
+        stats.inc("real_process_runs", st2.get("real_process_runs"))
+        if not probs and not probs_real and obs_real != obs_soft:
+            from ..core import HarnessError
+
+            raise HarnessError(f"soft restart diverges from real processes (seed {scn['seed']}): soft={obs_soft} real={obs_real}")
+        probs = probs + [dict(p, mode="real-process") for p in probs_real]
     stats.inc("runs")
     stats.inc("evaluations", stats.get("modules_loaded"))
     viols, seen = [], set()
